@@ -4,8 +4,8 @@ let rec pos_of_int n = if n = 1 then Coq_xH else if n land 1 = 0 then Coq_xO (po
 let n_of_int n = if n = 0 then N0 else Npos (pos_of_int n)
 let rec int_of_pos = function Coq_xH -> 1 | Coq_xO p -> 2 * int_of_pos p | Coq_xI p -> 2 * int_of_pos p + 1
 let int_of_n = function N0 -> 0 | Npos p -> int_of_pos p
-let rec nat_of_int n = if n <= 0 then Datatypes.O else Datatypes.S (nat_of_int (n - 1))
-let rec int_of_nat = function Datatypes.O -> 0 | Datatypes.S m -> 1 + int_of_nat m
+let nat_of_int n = let r = ref Datatypes.O in for _ = 1 to n do r := Datatypes.S !r done; !r
+let int_of_nat n = let rec go acc = function Datatypes.O -> acc | Datatypes.S m -> go (acc + 1) m in go 0 n
 
 let dec_units w = if w = "-" then [] else Stdlib.List.map (fun x -> n_of_int (int_of_string x)) (String.split_on_char '.' w)
 let dec_argv a = Stdlib.List.map dec_units (String.split_on_char ',' a)
